@@ -564,7 +564,7 @@ func main() {
 func check(i int, s *scen, ch coop.Chooser) {
 	res, clause, msg := execute(s, ch)
 	if msg == "stuck" {
-		run.Inconclusive("scheduler: a worker did not reach a yield point (wall-clock guard)")
+		run.Abort("scheduler: a worker did not reach a yield point (wall-clock guard); the process is abandoned")
 		return
 	}
 	if clause != "" {
